@@ -275,3 +275,27 @@ func (r *Report) writeEvidence(path string, discharged, violated, nontrivial int
 		fmt.Printf("cannot write evidence: %v\n", err)
 	}
 }
+
+// Import copies into r the obligations of the given rules from sub (the report of a sibling
+// property's check run on the same program): a rule that is a necessary condition of several
+// properties is decided once and reported under each. The rule is registered as "<rule>@<sibling>"
+// with the given floor; match, when not nil, selects the constructs that matter for r's property.
+func (r *Report) Import(sub *Report, why string, floor int, match func(o *Obligation) bool, rules ...string) {
+	want := map[string]bool{}
+	for _, n := range rules {
+		want[n] = true
+	}
+	for _, o := range sub.Obls {
+		if !want[o.Rule] || (match != nil && !match(o)) {
+			continue
+		}
+		name := o.Rule + "@" + sub.Property
+		if _, ok := r.Rules[name]; !ok {
+			r.Rule(name, sub.Rules[o.Rule]+" — shared with "+sub.Property+": "+why, floor)
+		}
+		c := *o
+		c.Property = r.Property
+		c.Rule = name
+		r.Obls = append(r.Obls, &c)
+	}
+}
